@@ -40,6 +40,9 @@ pub static LEDGER: Mutex<Option<LedgerInner>> = Mutex::new(None);
 pub static TRACE_POS: AtomicU64 = AtomicU64::new(0);
 pub static VAL_DROPS: Mutex<Vec<(u64, usize)>> = Mutex::new(Vec::new());
 
+/// fast path for unscheduled stress runs: no ledger, no global lock in `K::new` / `V::new` / drop
+pub static LEDGER_OFF: std::sync::atomic::AtomicBool = std::sync::atomic::AtomicBool::new(false);
+
 pub fn ledger_reset(log: bool) {
     let mut g = LEDGER.lock().unwrap();
     *g = Some(LedgerInner {
@@ -49,6 +52,9 @@ pub fn ledger_reset(log: bool) {
 }
 
 fn ledger_create(inst: u64, kind: ObjKind, origin: u32, cloned: bool) {
+    if LEDGER_OFF.load(Ordering::Relaxed) {
+        return;
+    }
     if let Ok(mut g) = LEDGER.lock() {
         if let Some(l) = g.as_mut() {
             l.objs.insert(inst, (kind, origin, cloned, 0));
@@ -59,6 +65,9 @@ fn ledger_create(inst: u64, kind: ObjKind, origin: u32, cloned: bool) {
     }
 }
 fn ledger_drop(inst: u64) {
+    if LEDGER_OFF.load(Ordering::Relaxed) {
+        return;
+    }
     if let Ok(mut g) = LEDGER.lock() {
         if let Some(l) = g.as_mut() {
             if let Some(e) = l.objs.get_mut(&inst) {
@@ -190,6 +199,9 @@ impl Clone for V {
 impl Drop for V {
     fn drop(&mut self) {
         ledger_drop(self.inst);
+        if LEDGER_OFF.load(Ordering::Relaxed) {
+            return;
+        }
         if let Ok(mut d) = VAL_DROPS.try_lock() {
             d.push((self.inst, TRACE_POS.load(Ordering::Relaxed) as usize));
         }
